@@ -74,9 +74,10 @@ func (c10) Info() core.Info {
 			"'open' in the statement = Open() plus the pending program breakaway, which the tracker keeps but hides from Open()",
 			"completeness of Open() is not demanded; only what the statement says (never-processed, already-closed/discarded, repeated, out of order)",
 			"a second identical call must fail; it must fail as duplicate only if the first call returned no error",
+			"closed lists and Open() results returned earlier must not change under later calls (they are the caller's)",
 		},
 		SimTimeUnit:    "sim_ticks_90khz",
-		RequiredProbes: []string{"breakaway_then_closer", "breakaway_then_explicit_close_below", "resumption_with_breakaway", "resumption_without_breakaway", "second_breakaway", "dup_within_ring", "dup_beyond_ring", "timer_close_hit", "timer_close_miss", "multi_descriptor_signal", "pts_wrap", "no_pts", "vss_pair", "open_depth_ge4", "transport_path", "same_object_twice"},
+		RequiredProbes: []string{"breakaway_then_closer", "breakaway_then_explicit_close_below", "resumption_with_breakaway", "resumption_without_breakaway", "second_breakaway", "dup_within_ring", "dup_beyond_ring", "timer_close_hit", "timer_close_miss", "multi_descriptor_signal", "pts_wrap", "no_pts", "vss_pair", "open_depth_ge4", "transport_path", "same_object_twice", "held_lists_checked"},
 	}
 }
 
@@ -536,9 +537,45 @@ func (c10) Exec(script interface{}, c *core.Ctx) {
 		c.Probe("transport_path")
 	}
 
+	// lists handed out earlier (closed lists, Open() results) belong to the caller: later
+	// calls must not change them
+	type heldList struct {
+		l, snap []scte35.SegmentationDescriptor
+		what    string
+	}
+	var held []heldList
+	hold := func(l []scte35.SegmentationDescriptor, what string) {
+		if len(l) == 0 {
+			return
+		}
+		held = append(held, heldList{l: l, snap: append([]scte35.SegmentationDescriptor(nil), l...), what: what})
+		if len(held) > 6 {
+			held = held[1:]
+		}
+	}
+	checkHeld := func() bool {
+		for _, h := range held {
+			for i := range h.snap {
+				if h.l[i] != h.snap[i] {
+					c.Fail("returned_lists_independent", "earlier_"+h.what+"_list_changed", "element "+itoa(i)+" replaced", "unchanged")
+					return false
+				}
+			}
+		}
+		if len(held) > 0 {
+			c.Probe("held_lists_checked")
+		}
+		return true
+	}
 	getOpen := func() ([]scte35.SegmentationDescriptor, bool) {
 		var o []scte35.SegmentationDescriptor
 		ok := c.Call("State.Open", func() { o = st.Open() })
+		if ok {
+			if !checkHeld() {
+				return o, false
+			}
+			hold(o, "open")
+		}
 		return o, ok
 	}
 	// invariants on Open()
@@ -663,6 +700,7 @@ func (c10) Exec(script interface{}, c *core.Ctx) {
 		if !c.Call("State.ProcessDescriptor", func() { closed, err = st.ProcessDescriptor(d) }) {
 			return false
 		}
+		hold(closed, "closed")
 		c.Log("t=%d process %s -> closed=%d err=%v", now, sdName(d), len(closed), err)
 		c.Unit("tracker_calls", 1)
 		hadBreakaway := len(pending) > 0
@@ -746,6 +784,7 @@ func (c10) Exec(script interface{}, c *core.Ctx) {
 				if !c.Call("State.Close(timer)", func() { cl, e = st.Close(d) }) {
 					return
 				}
+				hold(cl, "closed")
 				c.Log("t=%d timer close %s -> closed=%d err=%v", now, sdName(d), len(cl), e)
 				c.Unit("tracker_calls", 1)
 				if e == nil {
@@ -903,6 +942,7 @@ func (c10) Exec(script interface{}, c *core.Ctx) {
 		if !c.Call("State.Close", func() { cl, err = st.Close(d) }) {
 			return
 		}
+		hold(cl, "closed")
 		c.Log("t=%d close %s -> closed=%d err=%v", now, sdName(d), len(cl), err)
 		c.Unit("tracker_calls", 1)
 		if err == nil && len(cl) != 1 {
